@@ -79,6 +79,7 @@ def _realcall(a):
 
 
 CASED = ['ab', 'Ab', 'AB', 'aB']
+FLAKY_VALUE = 103          # G(1, 0): the result the flaky archive refuses to store
 
 
 def tcode(v):
@@ -191,6 +192,22 @@ def make_cache(backend, scratch):
         return ar.null_archive('n', cached=True), False
     if backend == 'dictarch':
         return ar.dict_archive('d', cached=True), False
+    if backend == 'flaky':
+        # an archive whose backend refuses ONE particular value (a full disk, a value the store cannot encode)
+        import klepto._archives as _ar
+
+        class FlakyArchive(_ar.dict_archive):
+            def __setitem__(self, k, v):
+                if v == FLAKY_VALUE:
+                    raise OSError('the archive refuses this value')
+                return _ar.dict_archive.__setitem__(self, k, v)
+
+            def update(self, adict, **kwds):
+                d = dict(adict, **kwds)
+                if any(v == FLAKY_VALUE for v in d.values()):
+                    raise OSError('the archive refuses this value')
+                return _ar.dict_archive.update(self, d)
+        return ar.cache(archive=FlakyArchive()), False
     if backend == 'file':
         return ar.file_archive(scratch.new('.pkl'), cached=True), False
     if backend == 'file-json':
@@ -238,6 +255,10 @@ class Impl:
                 return body(a[0], a[1] if len(a) > 1 else 0)
         elif cfg.get('stub') == 'req2':
             def stub(x, y):
+                return body(x, y)
+        elif cfg.get('stub') == 'fdef':
+            # a float default with more digits than any tolerance used here: it is part of every key
+            def stub(x, y=0, z=21.2626):
                 return body(x, y)
         else:
             def stub(x, y=0):
@@ -423,6 +444,8 @@ class Impl:
             out = ('raise', 'KeyError', len(self.log) - n0)
         except IndexError:
             out = ('raise', 'IndexError', len(self.log) - n0)
+        except OSError:
+            out = ('raise', 'OSError', len(self.log) - n0)
         except ValueError:
             out = ('raise', 'ValueError', len(self.log) - n0)
         except TypeError:
@@ -610,6 +633,8 @@ def compare(cfg, recs, mlines, eff, prop='ALL'):
     for i, r in enumerate(recs):
         if flt is not None and not flt(r):
             continue
+        if r['out'][0] == 'raise' and r['out'][1] == 'OSError':
+            continue            # the archive backend failed: outside the model; the monitors still judge the step
         ml = mlines[2 * i + 1]
         if ml.startswith('error') or mlines[2 * i].startswith('error'):
             return {'step': i, 'field': 'model-error', 'model': ml, 'impl': mlines[2 * i]}
